@@ -379,7 +379,7 @@ func c11(c *Ctx) {
 			}
 		}
 	}()
-	r.Expl = "Structural clauses behind 'independent builders and concurrent callers are race-free': (R1) inventory of every package-level variable of the module that is written after package initialisation by code reachable from the public API — each must be accessed only with one named lock held (at the access or at every module call site leading to it), only through sync/atomic, only inside a sync.Once initialiser, or be a listed configuration switch with its reason; (R2) every raw text access (copy into / read from the raw view, mprotect) happens with the memory RW-lock held in the right mode; (R3) every entry-jump write is executed with the patch lock held, except never-applied guards on the two error paths; (R4) the writable window keeps PROT_EXEC (shared with C14). Races on user objects shared by misuse and atomicity of a 13-byte write against executing threads are not decided."
+	r.Expl = "Structural clauses behind 'independent builders and concurrent callers are race-free': (R1) inventory of every package-level variable of the module that is written after package initialisation by code reachable from the public API — each must be accessed only with one named lock held (at the access or at every module call site leading to it), only through sync/atomic, only inside a sync.Once initialiser, or be a listed configuration switch with its reason; (R2) every raw text access (copy into / read from the raw view, mprotect) happens with the memory RW-lock held in the right mode; (R3) every entry-jump write is executed with the patch lock held, except never-applied guards on the two error paths; (R4) the writable window keeps PROT_EXEC (shared with C14). Races on user objects shared by misuse and atomicity of a 13-byte write against executing threads are not decided. (R8) a package-level lock is released only where it is definitely held (at the release or by every caller), on both architectures."
 	r.RuleText = "one obligation per (rule, global variable / access site / write site)"
 	r.Floor("C11.R1", 4)
 	r.Floor("C11.R2", 3)
